@@ -4,7 +4,7 @@
    with ANY number of relays (p_relays p is an arbitrary list), any payload, any other table entries. *)
 From Coq Require Import ZArith List Bool Lia.
 From IPV8V Require Import lib.PyErr lib.Bytes lib.BE model.M02_wire model.M03_recv model.M04_onion model.M04_harness
-  spec.S04_onion_spec proofs.P04_node proofs.P04_endpoint proofs.P04_chain proofs.P04_props proofs.P04_e2e proofs.P04_toy.
+  spec.S04_onion_spec proofs.P04_node proofs.P04_endpoint proofs.P04_chain proofs.P04_props proofs.P04_e2e proofs.P04_toy proofs.P04_ping.
 Import ListNotations.
 Open Scope Z_scope.
 
@@ -295,6 +295,31 @@ Theorem e2e_layer :
           cell_body (nth i (rev lb) []) = enc_layers enc BACKWARD (skipn i kb_all) (skipn i nlb) inner).
 Proof. exact e2e_layer_l. Qed.
 Print Assumptions e2e_layer.
+
+(* ping cells: what forward_transport hands to the exit is answered with a pong under the same id and
+   identifier, one BACKWARD layer, to the node it came from; what backward_transport hands to the originator
+   enters the pong handler with the header's circuit id and the identifier sent. *)
+Theorem ping_answered :
+  forall (key nonce : Type) (enc : key -> dir -> nonce -> bytes -> bytes)
+         (nd : node key) (src : addr) (cid : Z) (es : exit_sock key) (k : key) (ident : Z) (early : bool)
+         (rnd : Z -> bytes) (ns : nat -> nonce),
+  length (n_prefix nd) = 22%nat -> cid_ok cid -> 0 <= ident < 65536 ->
+  existsb (Z.eqb 6) (n_handlers nd) = true ->
+  assoc cid (n_circuits nd) = None -> assoc cid (n_exits nd) = Some es -> h_keys (es_hop es) = Some k ->
+  community_on_cell_packet enc nd src (cell_to_bin (n_prefix nd) (mkCell cid (6 :: be_encode 2 ident) false early)) rnd ns
+  = Ok (nd, [Send src (cell_to_bin (n_prefix nd) (mkCell cid (enc k BACKWARD (ns O) (7 :: be_encode 2 ident)) false false))]).
+Proof. exact ping_answered_l. Qed.
+Print Assumptions ping_answered.
+
+Theorem pong_received :
+  forall (key nonce : Type) (enc : key -> dir -> nonce -> bytes -> bytes)
+         (nd : node key) (src : addr) (cid ident : Z) (early : bool) (rnd : Z -> bytes) (ns : nat -> nonce),
+  length (n_prefix nd) = 22%nat -> cid_ok cid -> 0 <= ident < 65536 ->
+  existsb (Z.eqb 7) (n_handlers nd) = true ->
+  community_on_cell_packet enc nd src (cell_to_bin (n_prefix nd) (mkCell cid (7 :: be_encode 2 ident) false early)) rnd ns
+  = Ok (nd, [GotPong src cid ident]).
+Proof. exact pong_received_l. Qed.
+Print Assumptions pong_received.
 
 (* ---------------------------------------------------------------------------------------------------
    Non-vacuity: a concrete 3-hop circuit (two relays and an exit) and a concrete rendezvous pair under the
